@@ -35,6 +35,14 @@ CONNECTIONS = ["dense", "direct", "lateral", "conv"]
 
 
 def make_neuron(cls, shape, dt, B=1, dtype=None, **over):
+    if cls == "ExactNeuron":
+        # the shipped demonstration neuron (inferno.extra): fires exactly where its input is positive, keeps only its spikes
+        from inferno.extra import ExactNeuron
+
+        n = ExactNeuron(tuple(shape), dt, rest_v=-60.0, thresh_v=-50.0, batch_size=B)
+        if dtype is not None:
+            n.to(dtype)
+        return n
     kw = dict(NEURON_DEFAULTS[cls])
     kw.update(over)
     if "refrac_steps" in kw:
